@@ -89,39 +89,32 @@ func (e *CachedEnforcer) Enforce(rvals ...interface{}) (bool, error) {
 }
 
 func (e *CachedEnforcer) LoadPolicy() error {
-	if atomic.LoadInt32(&e.enableCache) != 0 {
-		if err := e.cache.Clear(); err != nil {
-			return err
-		}
+	// also while the cache is disabled: entries cached earlier must not survive re-enabling it
+	if err := e.cache.Clear(); err != nil {
+		return err
 	}
 	return e.Enforcer.LoadPolicy()
 }
 
 func (e *CachedEnforcer) RemovePolicy(params ...interface{}) (bool, error) {
-	if atomic.LoadInt32(&e.enableCache) != 0 {
-		key, ok := e.getKey(ruleAsParams(params)...)
-		if ok {
-			if err := e.cache.Delete(key); err != nil && err != cache.ErrNoSuchKey {
-				return false, err
-			}
+	key, ok := e.getKey(ruleAsParams(params)...)
+	if ok {
+		if err := e.cache.Delete(key); err != nil && err != cache.ErrNoSuchKey {
+			return false, err
 		}
 	}
 	return e.Enforcer.RemovePolicy(params...)
 }
 
 func (e *CachedEnforcer) RemovePolicies(rules [][]string) (bool, error) {
-	if len(rules) != 0 {
-		if atomic.LoadInt32(&e.enableCache) != 0 {
-			for _, rule := range rules {
-				irule := make([]interface{}, len(rule))
-				for i, param := range rule {
-					irule[i] = param
-				}
-				key, _ := e.getKey(irule...)
-				if err := e.cache.Delete(key); err != nil && err != cache.ErrNoSuchKey {
-					return false, err
-				}
-			}
+	for _, rule := range rules {
+		irule := make([]interface{}, len(rule))
+		for i, param := range rule {
+			irule[i] = param
+		}
+		key, _ := e.getKey(irule...)
+		if err := e.cache.Delete(key); err != nil && err != cache.ErrNoSuchKey {
+			return false, err
 		}
 	}
 	return e.Enforcer.RemovePolicies(rules)
@@ -199,11 +192,9 @@ func GetCacheKey(params ...interface{}) (string, bool) {
 
 // ClearPolicy clears all policy.
 func (e *CachedEnforcer) ClearPolicy() {
-	if atomic.LoadInt32(&e.enableCache) != 0 {
-		if err := e.cache.Clear(); err != nil {
-			e.logger.LogError(err, "clear cache failed")
-			return
-		}
+	if err := e.cache.Clear(); err != nil {
+		e.logger.LogError(err, "clear cache failed")
+		return
 	}
 	e.Enforcer.ClearPolicy()
 }
